@@ -250,6 +250,19 @@ def run(ck, F):
     for (fn, site, ctx, fields, base) in og.field_summaries(F, "model::field::Field"):
         if "try_from_node" not in fn or fn not in live or og.nf_str(fields.get("is_any", ("lit", 0))) == "True":
             continue
+        if base is not None or "xml_name" not in fields or "target_namespace" not in fields:
+            # `Field { f: .., ..other }`: a member made from an existing member. What is serialized (name, namespace, attribute flag,
+            # type, occurrence) has to stay what the declaration said
+            changed = [f_ for f_ in ("xml_name", "target_namespace", "is_attribute", "rust_type", "is_vec", "is_optional") if f_ in fields]
+            if base is None:
+                ck.undecided("R1", "Field:partial-constructor", site, f"{fn}: a Field is built without xml_name / target_namespace and without a base value")
+            elif changed:
+                ck.violation("R1", f"Field.{changed[0]}:rewritten", site,
+                             f"{fn} makes a member from an existing one and replaces its `{changed[0]}` ({og.nf_str(fields[changed[0]])[:80]}): a member that "
+                             f"was declared elsewhere (inherited, referenced) is then serialized with another name / namespace / shape than its declaration", fn="Field::try_from_node")
+            else:
+                ck.ok("R1", "Field:copied", site, f"{fn}: a member copied from an existing one keeps name, namespace and shape", fn="Field::try_from_node")
+            continue
         is_ref = any("'ref'" in og.nf_str(c[1]) and c[2] for c in ctx if c[0] == "alt")
         is_xml = any("starts_with" in og.nf_str(c[1]) and c[2] for c in ctx if c[0] == "alt")
         # both spellings: with local helper functions expanded and as written (a lookup function that is simple enough to be
